@@ -125,7 +125,7 @@ def experiments_to_dicts(block: Block, experiments: List[dict]) -> List[List[dic
         to one of the ``experiments``, each dictionary corresponds to a particular
         crossing, and each string is the simple surface name of a level.
     """
-    return _experiments_to_dicts(experiments, [cast(str, f.name) for f in __filter_hidden(block.design)])
+    return _experiments_to_dicts(experiments, __user_factor_names(block))
 
 def experiments_to_tuples(block: Block, experiments: List[dict]) -> List[List[tuple]]:
     """Converts a list of experiments into a list of lists of tuples, where
@@ -143,7 +143,14 @@ def experiments_to_tuples(block: Block, experiments: List[dict]) -> List[List[tu
         to one of the ``experiments``, each tuple corresponds to a particular
         crossing, and each string is the simple surface name of a level.
     """
-    return _experiments_to_tuples(experiments, [cast(str, f.name) for f in __filter_hidden(block.design)])
+    return _experiments_to_tuples(experiments, __user_factor_names(block))
+
+def __user_factor_names(block: Block) -> List[str]:
+    # Continuous factors are kept apart from `block.design`, but they are
+    # factors of the experiments all the same
+    factors = __filter_hidden(block.design)
+    factors = factors + [f for f in block.continuous_factors if f not in factors]
+    return [cast(str, f.name) for f in factors]
 
 def __filter_hidden(design: List[Factor]) -> List[Factor]:
     return list(filter(lambda f: not isinstance(f.name, HiddenName), design))
@@ -347,7 +354,7 @@ def _experiments_to_csv(experiments: List[dict],
 def save_experiments_csv(block: Block,
                          experiments: List[dict],
                          file_prefix: str = "experiment"):
-    return _experiments_to_csv(experiments, [cast(str, f.name) for f in __filter_hidden(block.design)], file_prefix)
+    return _experiments_to_csv(experiments, __user_factor_names(block), file_prefix)
 
 
 def synthesize_trials(block: Block,
